@@ -1,8 +1,9 @@
 (* C14 — a model's answers depend only on its last fit, never on call history. Statements only.
    The state machine (Model/History.v) is generic in what fit computes (fit_view), what a transform
    call records about its own input (bk_of) and how answers are formed from them. *)
-From Coq Require Import List Bool.
+From Coq Require Import String List Bool.
 From XV Require Import Model.History Gen.T7hist Proofs.C14_proofs Proofs.C14_tie.
+From XV Require Import Model.FlagState Gen.T5flag Proofs.FlagState_proofs Proofs.Flag_tie.
 From XV Require Model.Mic Gen.T7mic Proofs.Mic_proofs Proofs.Mic_tie Gen.T7inplace.
 Import ListNotations.
 
@@ -99,3 +100,23 @@ Theorem C14_no_state_outside_fit : List.length C14_tie.nonfit_writers = 10%nat /
   forallb C14_tie.writer_method_known C14_tie.nonfit_writers = true.
 Proof. exact (conj (f_equal (@List.length _) C14_tie.nonfit_writers_known) (f_equal (forallb _) C14_tie.nonfit_writers_known)). Qed.
 Print Assumptions C14_no_state_outside_fit.
+
+(* the `sorted` flag of rotators and POP is the only model state a non-fit method changes (C14_nonfit_writers_known);
+   as a state machine (Model/FlagState.v, variant regenerated from the source): a fit after ANY history leaves the state
+   a first fit leaves, and every reachable state stores the last fit's arrays, sorted exactly when the flag says so *)
+Theorem C14_fit_forgets_flag_history : forall (A : Type) (sortA : list nat -> A -> A) (ops : list (fop A)) (s : fstate A) (d : A) (idx : list nat),
+  fstep A sortA true true (frun A sortA true true s ops) (FFit A d idx) = finit A d idx.
+Proof. exact fit_forgets_history. Qed.
+Print Assumptions C14_fit_forgets_flag_history.
+
+Theorem C14_flag_invariant : forall (A : Type) (sortA : list nat -> A -> A) (ops : list (fop A)) (s : fstate A),
+  FlagInv A sortA s -> FlagInv A sortA (frun A sortA true true s ops).
+Proof. exact frun_inv. Qed.
+Print Assumptions C14_flag_invariant.
+
+Theorem C14_flag_writes_in_source : flag_writes =
+  [("EOFRotator", "__init__", true, false); ("EOFRotator", "_fit_algorithm", true, false); ("EOFRotator", "_sort_by_variance", true, true);
+   ("CPCCARotator", "__init__", true, false); ("CPCCARotator", "_fit_algorithm", true, false); ("CPCCARotator", "_sort_by_variance", true, true);
+   ("POP", "__init__", true, false); ("POP", "_fit_algorithm", true, false); ("POP", "_sort_by_variance", true, true)]%string.
+Proof. exact flag_writes_known. Qed.
+Print Assumptions C14_flag_writes_in_source.
